@@ -50,7 +50,7 @@ FLOATS = ['0.5', '2', '1e-1', '.5', '-1.0', '3.25', '1', '0', '12.011', '1E2', '
 FREE = [('mass', '12'), ('foo', 'bar'), ('r', 'abc'), ('p', 's'), ('e', '-1'), ('q', '1'), ('name', 'C1')]
 SYM_ORDER = {'-': 1, '=': 2, '#': 3, '$': 4, ':': 1.5, '.': 0}      # the documented table (spec side)
 BSYM = {'-': 'BSingle', '=': 'BDouble', '#': 'BTriple', '$': 'BQuad', ':': 'BArom', '.': 'BZero'}
-CLASSES = {1: 'desc_after_symbol_ring', 2: 'zero_order_symbol', 3: 'coarse_multiplier'}
+CLASSES = {3: 'coarse_multiplier'}     # 1 desc_after_symbol_ring, 2 zero_order_symbol: repaired in /repo (f3554b8, 0d0f450)
 CLAUSES = {1: 'the clean text is not the original text without descriptors and annotations',
            2: 'a descriptor is reported on the wrong atom, with the wrong order, or lost',
            3: 'the slash marks are not on the atom before and the atom after the slash',
@@ -196,7 +196,7 @@ def rand_desc(rng):
     kind = rng.choice('$$$><!')
     label = rng.choice(['', '', '', 'A', '1', 'a1', 'AB', '1A', 'b', '22'])
     r = rng.random()
-    sym = None if r < 0.58 else rng.choice('-==##') if r < 0.95 else '.'
+    sym = None if r < 0.58 else rng.choice('-==##') if r < 0.9 else '.'
     return [kind, label, sym]
 
 
@@ -333,7 +333,7 @@ class C13(common.Prop):
     id = 'C13'
     level = 'proof'
     technique = ('Coq proof (induction over the decorated token list with a state invariant of the character '
-                 'machine; bounded exhaustive theorem by vm_compute; refutation witnesses for the defect classes) '
+                 'machine; bounded exhaustive theorem by vm_compute; refutation witness for the defect class) '
                  'on a model over constant tables regenerated from read_fragments.py + per-run correspondence of '
                  'the hand-written character machine with the implementation')
     vo_deps = ['theories/Frag/StripCheck.vo']
@@ -345,7 +345,7 @@ class C13(common.Prop):
     extended_cases = 12000
     shard = 200
     fail_text = dict([(c + 10 * k, CLAUSES[c] + (' [input in defect class %s]' % CLASSES[k] if k else ''))
-                      for c in CLAUSES for k in (0, 1, 2, 3)] +
+                      for c in CLAUSES for k in (0, 3)] +
                      [(97, 'harness: generated tokens are outside the stated domain (wf)'),
                       (98, 'harness: python and Coq render the tokens differently')])
 
@@ -371,9 +371,10 @@ class C13(common.Prop):
     def _corpus(self):
         C, O = A('C'), A('O')
         out = [
-            # the three known defect classes (witnesses of the _refuted theorems)
+            # witnesses of the two repaired classes (f3554b8, 0d0f450) and of the known defect class
             plain([C, R('1', '='), C, C, R('1')], {1: [D()]}),                       # C=1[$]CC1
             plain([C], {0: [D(sym='.')]}),                                           # C.[$]
+            plain([C, ['('], C, C, R('1', '='), [')'], C, C, R('1')], {5: [D()]}),   # C(CC=1)[$]CC1
             plain([K('#PEO'), ['M', 4]], {1: [D('>')]}, lead=[D('<')]),              # [<][#PEO]|4[>]
             # well-behaved relatives
             plain([C, R('1'), C, C, R('1')], {1: [D()]}),                            # C1[$]CC1
